@@ -38,7 +38,7 @@ CHECKS = {
         technique="Hypothesis rule-based state machine + exhaustive two-step histories, fresh-instance differential oracle, ASan/UBSan",
         text="History independence: (1) exhaustive enumeration, per sampled zone (thorough: every zone), of every ordered pair of "
              "years 1998..2051 x every ordered pair of query kinds as a two-step history on one processor plus A;B;A zone "
-             "interleavings over every ordered pair of years, three-step histories q(y1); q(y2); q(y1) over every ordered pair of years, re-binding histories q(A); q(B); q(A) over every ordered pair of basic zones with several eras (a sample of the extended ones; thorough: 2000 pairs) and two editions of one zone (same name and id, other eras) handed to one manager of cache size 1..4 (3e7 histories quick); (2) a Hypothesis RuleBasedStateMachine over shared processors, managers "
+             "interleavings over every ordered pair of years, three-step histories q(y1); q(y2); q(y1) over every ordered pair of years, re-binding histories q(A); q(B); q(A) over every ordered pair of basic zones with several eras (a sample of the extended ones; thorough: 2000 pairs) two editions of one zone (same name and id, other eras) handed to one manager of cache size 1..4, and wall times inside the overlap / gap of every offset change asked after a query on either side of it (3e7 histories quick); (2) a Hypothesis RuleBasedStateMachine over shared processors, managers "
              "with cache size 1..4 holding 2..8 zones, creation by name/id/index/info, queries incl. out-of-range/sentinel, "
              "repeat-last, alternate and same-year-other-instant rules, on an ASan+UBSan build; the exhaustive part also takes same-year pairs of different instants. Every answer is compared with the same query on a "
              "brand-new processor; failures are collected, bucketed and minimised by delta debugging into replayable op lists.",
@@ -94,7 +94,7 @@ CHECKS = {
     "C03": dict(
         technique="differential testing against an independent compiler (zic) over five source corpora (reconstructed, real 2025b, names, 576 enumerated era-boundary x rule sources, Hypothesis grammar); accounting invariant over the transformer output",
         text="Corpora: source reconstructed from the shipped tables, the vendored real 2025b release (443 zones; expansion validated "
-             "against zic on the original), a 'names' source (duplicate normalised names, links to removed zones), about 890 extended / 210 basic enumerated sources (hemisphere x next-era kind x STDOFF step x UNTIL form x AT suffix, era boundaries +-2 h / +-5 h around rule transitions in u/s/w, policies that start or stop around the era change, one-off extra rules in the month of a regular rule, January / December rules at an era change, month-end rules next to an era start, 3..5 transitions a year, policies starting around the first database year, weekday UNTIL forms, policies that ended before their era with two latest rules in one month, six-character abbreviations); era changes at the edges of the range, SAVE spelled '0:00'; capacity probes (six transitions a year, seven eras a year, a pool of nine) and Hypothesis-generated small sources (both scopes, varying year ranges). For every "
+             "against zic on the original), a 'names' source (duplicate normalised names, links to removed zones), about 900 extended / 215 basic enumerated sources (hemisphere x next-era kind x STDOFF step x UNTIL form x AT suffix, era boundaries +-2 h / +-5 h around rule transitions in u/s/w, policies that start or stop around the era change, one-off extra rules in the month of a regular rule, January / December rules at an era change, month-end rules next to an era start, 3..5 transitions a year, policies starting around the first database year, weekday UNTIL forms, policies that ended before their era with two latest rules in one month, six-character abbreviations, a second standard-time LETTER, STD/DST FORMAT with fixed RULES); era changes at the edges of the range, SAVE spelled '0:00'; capacity probes (six transitions a year, seven eras a year, a pool of nine) and Hypothesis-generated small sources (both scopes, varying year ranges). For every "
              "(source, scope): tzcompiler.py -> generated C++ tables compiled into the sweep driver (path A: 300 s stride + per-second "
              "windows at every oracle transition + field probes; thorough 60 s) and Extractor->Transformer->InlineGenerator->"
              "ZoneSpecifier in-process (path P) must equal zic's function over [start_year, until_year); every input zone/link/policy is "
@@ -117,7 +117,7 @@ CHECKS = {
     "C20": dict(
         technique="metamorphic relations over compiler runs (repeat under another hash seed, import vs in-memory, counts vs entries, basic vs extended differential) + zic differential on the checked-in Python database",
         text="Sources {reconstructed 2020d, real 2025b, a seconds/odd-minute source} x scope x language x two (small source: eight) runs in fresh interpreters with different "
-             "PYTHONHASHSEED: R1 byte-identical files (canonical reason order), R1c the same artifacts when eight compilations (both small sources x scope x language, two orders) run inside one interpreter, R2 imported zone_infos.py/zone_policies.py == "
+             "PYTHONHASHSEED: R1 byte-identical files (canonical reason order), R1c the same artifacts when eight or nine compilations (small sources x scope x language, three orders, incl. two sources whose zone names share a C++ identifier and a zone name) run inside one interpreter, R2 imported zone_infos.py/zone_policies.py == "
              "InlineGenerator maps, R3 zones.txt == emitted set, R4 every stated count == counted entries (incl. kZoneRegistrySize), R5 "
              "basic zones subset of extended with equal RLE streams through the two fresh builds unless the zone carries a truncation note, R6 every tools/zonedbpy zone x "
              "2000..2037 vs zic on its recorded lines.",
